@@ -1,10 +1,12 @@
 """INI parser family (src/extensions/qconfig.c) for the INI halves of C17 and C20.
 
-Every query is an exhaustive case split over one batch [lo, hi) of a finite input family: the only
-symbolic input of harness/ini.c is the member selector; each branch runs the real parser on one
-concrete member (see the ENCODING note at the top of harness/ini.c for the measurements that forced
-this: one symbolic text byte = no verdict in 300 s / 7 GB).  This module mirrors the radix tables of
-the harness to know each family's size; -DVF_TOTAL makes the harness assert the agreement."""
+Every query is an EXHAUSTIVE CASE SPLIT over one batch of a driver-enumerated finite input family: the
+only symbolic input of harness/ini.c is the member selector; each branch runs the real parser on one
+concrete member (constant-folding symbolic execution of the real code; memory-safety checks,
+unwinding assertions and the functional assertions are decided per member).  See the ENCODING note at
+the top of harness/ini.c for the measurements that forced this (one symbolic text byte, or one symbolic
+byte in a getenv()/command stub result, = no verdict in 300 s / 7 GB).  This module mirrors the radix
+tables of the harness to know each family's size; -DVF_TOTAL makes the harness assert the agreement."""
 import itertools
 from ..engine import Case
 
@@ -12,7 +14,7 @@ PROP = 'C20'
 NAME = 'ini'
 
 # ---- mirrors of harness/ini.c (PICK4 tables: tiny, small, medium, rich)
-N_LAY = (1, 2, 3, 6)
+N_LAY = (1, 2, 2, 6)
 N_NAMES = (2, 2, 3, 5)
 N_SECS = (2, 2, 3, 4)
 N_KVVALS = (2, 2, 4, 14)
@@ -29,6 +31,8 @@ N_POST2 = (2, 3, 4, 5)
 N_INC2 = (2, 4, 6, 9)
 ALPHABETS = ['ab=${}[]#%! \\n', 'a=${}\\n', '=${}', 'a=${}%\\n', 'a=${}']
 ALPHA_SIZE = [13, 6, 4, 7, 5]
+VALS = ['', '${', 'a', '}', '$', '{a']
+LITS = ['x', '$', '{', '}']
 
 K_NONE, K_BLANK, K_COMMENT, K_SEC, K_SECEND, K_KV, K_REF, K_ENV = range(8)
 KNAME = {K_NONE: 'none', K_BLANK: 'blank', K_COMMENT: 'comment', K_SEC: 'sec', K_SECEND: 'secend', K_KV: 'kv', K_REF: 'ref', K_ENV: 'env'}
@@ -39,8 +43,11 @@ FUNCS = ['qconfig_parse_str', '_parsestr', '_q_makeword', 'qstrtrim', 'qstrrepla
 FUNCS_FILE = FUNCS + ['qconfig_parse_file']
 
 BATCH = 120          # members per query
+BATCH_SEC = 40       # ... when section lines are involved (qstrdupf's 1024-byte scratch buffer costs memory)
+BATCH_LOOP = 12      # ... for the members whose ${} expansion is expected not to end
 FS_FLAGS = ['--max-field-sensitivity-array-size', '1100']  # qstrdupf's 1024-byte scratch buffer must stay element-wise for constant folding
-EXPAND_BOUND = 12    # unwinding bound of the ${} expansion loop (do-while in _parsestr)
+MAX_EXPANSIONS = 8   # scaled knob: -D_VAR_MAX_EXPANSIONS (used by the proposed bounded _parsestr(); ignored by an unbounded one)
+EXPAND_BOUND = MAX_EXPANSIONS + 2    # unwinding bound of the ${} expansion loop (do-while in _parsestr)
 
 
 def line_radix(k, r):
@@ -78,27 +85,151 @@ def tpl_total(kinds, r):
     return t
 
 
-def batches(total, size=BATCH):
-    return [(lo, min(total, lo + size)) for lo in range(0, total, size)]
-
-
-def mk(cid, defs, total, lo, hi, safety, funcs, desc, owner):
+# ---------------------------------------------------------------- queries
+def mk(cid, defs, total, members, safety, funcs, desc, owner, unwind):
+    """members: (lo, hi) range or explicit list of member indexes"""
     d = dict(defs)
-    d.update({'VF_LO': lo, 'VF_HI': hi, 'VF_TOTAL': total})
-    kw = {}
+    d['VF_TOTAL'] = total
+    d['_VAR_MAX_EXPANSIONS'] = MAX_EXPANSIONS
+    if isinstance(members, tuple):
+        d.update({'VF_LO': members[0], 'VF_HI': members[1]})
+        n, what = members[1] - members[0], 'members %d..%d' % (members[0], members[1] - 1)
+    else:
+        d['VF_LIST'] = ','.join(str(i) for i in members)
+        n, what = len(members), 'members %s' % (','.join(str(i) for i in members) if len(members) <= 12 else '%d..%d (%d of them)' % (members[0], members[-1], len(members)))
     if safety:
         kw = dict(checks='safety', safety_owner=owner, unwind_owner=owner)
     else:
         kw = dict(checks='func', unwind_owner=owner)
-    return Case(cid, 'ini.c', d, unwind=120, unwindset={'vf_harness.0': hi - lo + 2, 'qstrdupf.0': 2, '_parsestr.2': EXPAND_BOUND},
-                timeout=900, mem_gb=3, object_bits=14, extra_flags=FS_FLAGS, funcs=funcs, family='ini',
-                desc='%s; members %d..%d of %d' % (desc, lo, hi - 1, total), **kw)
+    c = Case(cid, 'ini.c', d, unwind=unwind, unwindset={'vf_harness.0': n + 2, 'qstrdupf.0': 2, '_parsestr.2': EXPAND_BOUND},
+             timeout=900, mem_gb=3, object_bits=14, extra_flags=FS_FLAGS, funcs=funcs, family='ini',
+             desc='%s; %s of a driver-enumerated family of %d concrete inputs: CBMC executes the real parser on each member (only the member selector is symbolic)' % (desc, what, total), **kw)
+    c.n_members = n
+    return c
 
 
-def family(prefix, defs, total, safety, funcs, desc, owner):
+def family(prefix, defs, total, safety, funcs, desc, owner, unwind, size=BATCH, special=None):
+    """special: {member index: text} - members that are expected to make the expansion loop run forever; they are
+    kept out of the ordinary batches and get small batches of their own (case id '....loop.mNNNNNN')"""
     out = []
-    for (lo, hi) in batches(total):
-        out.append(mk('%s.m%06d' % (prefix, lo), defs, total, lo, hi, safety, funcs, desc, owner))
+    special = special or {}
+    if not special:
+        for lo in range(0, total, size):
+            out.append(mk('%s.m%06d' % (prefix, lo), defs, total, (lo, min(total, lo + size)), safety, funcs, desc, owner, unwind))
+        return out
+    normal = [i for i in range(total) if i not in special]
+    for k in range(0, len(normal), size):
+        part = normal[k:k + size]
+        out.append(mk('%s.m%06d' % (prefix, part[0]), defs, total, part, safety, funcs, desc, owner, unwind))
+    sp = sorted(special)
+    for k in range(0, len(sp), BATCH_LOOP):
+        part = sp[k:k + BATCH_LOOP]
+        out.append(mk('%s.loop.m%06d' % (prefix, part[0]), dict(defs, VF_LOOPBATCH=None), total, part, safety, funcs,
+                      '%s; self- or mutually-referential members (expansion does not end on an unbounded _parsestr()): %s' % (desc, ' | '.join('%d=%s' % (i, special[i]) for i in part)), owner, unwind))
+    return out
+
+
+# ---------------------------------------------------------------- expansion templates: member text and loop prediction
+# (used only to move the members whose ${} expansion never ends into batches of their own, so that they can be
+#  identified by case id; a wrong prediction cannot hide anything: the member is then checked inside an ordinary batch)
+def tpl_member(kinds, r, idx):
+    x = [idx]
+
+    def dig(b):
+        d = x[0] % b
+        x[0] //= b
+        return d
+    text = ''
+    for k in kinds:
+        text += 'abc'[dig(3)] + '='
+        if k == T_LITREF:
+            text += LITS[dig(N_LITS[r])]
+        text += '${' + ('%' if k == T_ENV else '!' if k == T_CMD else '')
+        text += 'abc'[dig(3)] + '}\n'
+    env = cmd = None
+    if T_ENV in kinds:
+        d = dig(N_VALS[r] + 1)
+        env = VALS[d] if d < N_VALS[r] else None
+    if T_CMD in kinds:
+        d = dig(N_VALS[r] + 1)
+        cmd = VALS[d] if d < N_VALS[r] else None
+    return text, env, cmd
+
+
+def _expand(tbl, value, env, cmd, limit=200):
+    """port of _parsestr(); returns None when the expansion does not end within `limit` rounds"""
+    for _ in range(limit):
+        loop = False
+        i = 0
+        while i < len(value):
+            if not (value[i] == '$' and value[i + 1:i + 2] == '{'):
+                i += 1
+                continue
+            opened = 1
+            e = i + 2
+            while e < len(value):
+                if value[e] == '$' and value[e + 1:e + 2] == '{':
+                    i = e - 1
+                    break
+                elif value[e] == '{':
+                    opened += 1
+                elif value[e] == '}':
+                    opened -= 1
+                else:
+                    e += 1
+                    continue
+                if opened == 0:
+                    break
+                e += 1
+            if e >= len(value):
+                break
+            if opened > 0:
+                i += 1
+                continue
+            var = value[i + 2:e]
+            if var[:1] == '!':
+                new = '' if len(var) == 1 else (cmd.strip(' \t\r\n') if cmd is not None else '')
+            elif var[:1] == '%':
+                new = '' if len(var) == 1 else (env if env is not None else '')
+            elif var == '':
+                new = ''
+            else:
+                new = None
+                for (n, v) in tbl:
+                    if n == var:
+                        new = v
+                if new is None:
+                    i = e + 1
+                    continue
+            value = value.replace(value[i:e + 1], new)
+            loop = True
+            break
+        if not loop:
+            return value
+    return None
+
+
+def tpl_loops(kinds, r, idx):
+    text, env, cmd = tpl_member(kinds, r, idx)
+    tbl = []
+    for line in text.split('\n'):
+        line = line.strip(' \t\r\n')
+        if not line or line[0] == '#':
+            continue
+        name, _, value = line.partition('=')
+        v = _expand(tbl, value.strip(' \t\r\n'), env, cmd)
+        if v is None:
+            return True
+        tbl.append((name.strip(' \t\r\n'), v))
+    return False
+
+
+def tpl_special(kinds, r, total):
+    out = {}
+    for idx in range(total):
+        if tpl_loops(kinds, r, idx):
+            text, env, cmd = tpl_member(kinds, r, idx)
+            out[idx] = '%r%s%s' % (text, '' if env is None else ' with ${%%x}=%r' % env, '' if cmd is None else ' with ${!x} printing %r' % cmd)
     return out
 
 
@@ -107,7 +238,7 @@ def raw_plan(tier):
     """(n, alphabet index) pairs of the raw C17 family"""
     if tier == 'quick':
         return [(0, 0), (1, 0), (2, 0), (3, 0), (4, 1), (5, 2)]
-    return [(0, 0), (1, 0), (2, 0), (3, 0), (4, 0), (5, 3), (6, 4), (7, 2)]
+    return [(0, 0), (1, 0), (2, 0), (3, 0), (4, 0), (5, 1), (6, 2), (7, 2)]
 
 
 def tpl_plan(tier):
@@ -115,10 +246,11 @@ def tpl_plan(tier):
     kinds = (T_REF, T_LITREF, T_ENV, T_CMD)
     out = [((k,), 3) for k in kinds]
     if tier == 'quick':
-        out += [(p, 1) for p in itertools.product(kinds, repeat=2)]
+        out += [(p, 1) for p in itertools.product((T_REF, T_LITREF), repeat=2)]
+        out += [(p, 0) for p in ((T_ENV, T_REF), (T_REF, T_ENV), (T_CMD, T_REF), (T_REF, T_CMD))]
         out += [((T_REF, T_REF, T_REF), 0)]
     else:
-        out += [(p, 3) for p in itertools.product(kinds, repeat=2)]
+        out += [(p, 2) for p in itertools.product(kinds, repeat=2)]
         out += [(p, 1) for p in itertools.product((T_REF, T_LITREF), repeat=3)]
         for special in (T_ENV, T_CMD):
             for pos in range(3):
@@ -134,10 +266,11 @@ def incraw_rich(tier):
 
 def doc_plan(tier):
     kinds = (K_BLANK, K_COMMENT, K_SEC, K_SECEND, K_KV, K_REF, K_ENV)
-    out = [((k,), 3) for k in kinds]
     if tier == 'quick':
+        out = [((k,), 2 if k == K_REF else 3) for k in kinds]
         out += [(p, 1) for p in itertools.product(kinds, repeat=2)]
     else:
+        out = [((k,), 3) for k in kinds]
         out += [(p, 2) for p in itertools.product(kinds, repeat=2)]
         out += [(p, 0) for p in itertools.product(kinds, repeat=3)]
     return out
@@ -146,9 +279,9 @@ def doc_plan(tier):
 def docinc_plan(tier):
     """(A kind, C kind (the included line), B kind), richness, number of structural variants"""
     if tier == 'quick':
-        a, c, b, ns = (K_NONE, K_SEC, K_KV), (K_KV, K_SEC, K_REF), (K_NONE, K_REF), 3
+        a, c, b, ns = (K_NONE, K_SEC, K_KV), (K_KV, K_REF), (K_NONE, K_REF), 3
     else:
-        a, c, b, ns = (K_NONE, K_SEC, K_KV, K_REF), (K_KV, K_SEC, K_SECEND, K_REF, K_ENV, K_COMMENT, K_BLANK), (K_NONE, K_KV, K_REF, K_SEC), 8
+        a, c, b, ns = (K_NONE, K_SEC, K_KV, K_REF), (K_KV, K_SEC, K_SECEND, K_REF, K_ENV, K_COMMENT, K_BLANK), (K_NONE, K_KV, K_REF), 5
     return [(p, 0, ns) for p in itertools.product(a, c, b)]
 
 
@@ -163,17 +296,18 @@ def c17_cases(tier, ledger=False, prefix='c17.ini', owner='C17'):
         total = ALPHA_SIZE[a] ** n
         d = dict({'VF_MODE': 1, 'VF_N': n, 'VF_ALPHA': a}, **extra)
         out += family('%s.raw.n%d.a%d' % (prefix, n, a), d, total, True, FUNCS,
-                      'qconfig_parse_str on every %d-byte string over "%s" (exactly sized heap buffer)' % (n, ALPHABETS[a]), owner)
+                      'qconfig_parse_str on every %d-byte string over the alphabet "%s" (exactly sized heap buffer)' % (n, ALPHABETS[a]), owner, 16)
     r = incraw_rich(tier)
     total = N_PRE2[r] * N_NM2[r] * N_POST2[r] * N_INC2[r] * 2
     out += family('%s.incraw.r%d' % (prefix, r), dict({'VF_MODE': 2, 'VF_RICH': r}, **extra), total, True, FUNCS_FILE,
-                  'qconfig_parse_file: main file = prefix + "@INCLUDE " + name bytes + suffix, include file raw, present or missing', owner)
+                  'qconfig_parse_file: main file = prefix + "@INCLUDE " + name bytes + suffix, include file raw, present or missing', owner, 40, size=BATCH_SEC)
     for (kinds, r) in tpl_plan(tier):
         total = tpl_total(kinds, r)
         d = dict({'VF_MODE': 3, 'VF_RICH': r}, **extra)
         d.update(kdefs(kinds))
         out += family('%s.tpl.%s.r%d' % (prefix, '-'.join(TNAME[k] for k in kinds), r), d, total, True, FUNCS,
-                      'expansion templates, lines %s, names and references over {a,b,c}: the ${} expansion loop terminates within %d rounds' % ('/'.join(TNAME[k] for k in kinds), EXPAND_BOUND - 1), owner)
+                      'expansion templates, lines %s, names and references over {a,b,c}: the ${} expansion loop ends within %d rounds' % ('/'.join(TNAME[k] for k in kinds), MAX_EXPANSIONS), owner, 8 * len(kinds) + 8,
+                      special=tpl_special(kinds, r, total))
     return out
 
 
@@ -185,48 +319,64 @@ def c20_cases(tier, ledger=False, prefix='c20.ini', owner='C20'):
         d = dict({'VF_MODE': 4, 'VF_RICH': r}, **extra)
         d.update(kdefs(kinds))
         out += family('%s.doc.%s.r%d' % (prefix, '-'.join(KNAME[k] for k in kinds), r), d, total, False, FUNCS,
-                      'print -> qconfig_parse_str -> compare with the expected ordered entry list; lines %s' % '/'.join(KNAME[k] for k in kinds), owner)
+                      'print -> qconfig_parse_str -> compare with the expected ordered entry list; lines %s' % '/'.join(KNAME[k] for k in kinds), owner, 18 * len(kinds) + 6,
+                      size=BATCH_SEC if K_SEC in kinds else BATCH)
     for (kinds, r, ns) in docinc_plan(tier):
         total = inc_total(kinds, r, ns)
         d = {'VF_MODE': 5, 'VF_RICH': r, 'VF_NSTRUCT': ns, 'VF_K0': kinds[0], 'VF_K1': kinds[1], 'VF_K2': kinds[2]}
         d.update(extra)
         out += family('%s.inc.%s.r%d' % (prefix, '-'.join(KNAME[k] for k in kinds), r), d, total, False, FUNCS_FILE,
-                      'qconfig_parse_file over the in-memory files: [%s] @INCLUDE i [%s], included file [%s]' % (KNAME[kinds[0]], KNAME[kinds[2]], KNAME[kinds[1]]), owner)
+                      'qconfig_parse_file over the in-memory files: [%s] @INCLUDE i [%s], included file [%s]' % (KNAME[kinds[0]], KNAME[kinds[2]], KNAME[kinds[1]]), owner, 76,
+                      size=BATCH_SEC if K_SEC in kinds else BATCH)
     return out
 
 
 def cases(tier, mode):
-    """mode: 'c17' (safety + termination) | 'c20' (functional) | 'leak' (allocation ledger over the same members, tag C11.ini.leak)"""
+    """mode: 'c17' (safety + termination) | 'c20' (functional) | 'leak' (allocation ledger over the C17 quick members, tag C11.ini.leak)"""
     if mode == 'c17':
         return c17_cases(tier)
     if mode == 'c20':
         return c20_cases(tier)
     if mode == 'leak':
-        return c17_cases(tier, ledger=True, prefix='c11.ini', owner='C11') if tier == 'quick' else []
+        return c17_cases('quick', ledger=True, prefix='c11.ini', owner='C11')
     return []
 
 
 def members(tier, mode):
-    return sum(c.defines['VF_HI'] - c.defines['VF_LO'] for c in cases(tier, mode))
+    return sum(c.n_members for c in cases(tier, mode))
+
+
+def sizes(tier):
+    """family sizes (number of concrete members) per group"""
+    out = {}
+    for m in ('c17', 'c20'):
+        for c in cases(tier, m):
+            g = '.'.join(c.cid.split('.')[:3])
+            out[g] = out.get(g, 0) + c.n_members
+    return out
 
 
 def info(tier):
     q = tier == 'quick'
-    raw = ', '.join('n=%d over "%s"' % (n, ALPHABETS[a]) for (n, a) in raw_plan(tier))
+    raw = ', '.join('n=%d over "%s" (%d)' % (n, ALPHABETS[a], ALPHA_SIZE[a] ** n) for (n, a) in raw_plan(tier))
+    sz = sizes(tier)
     return {'container': 'INI parser (qconfig.c)',
-            'bounds': ('every query is an exhaustive case split over a batch of a finite input family (selector symbolic, member text concrete). '
-                       'C17 raw: every string with %s; C17 @INCLUDE: prefix/name/suffix/include-text lists of the harness at richness %d, include file present or missing; '
-                       'C17 expansion templates: <= %d lines of name=${ref} / name=lit${ref} / name=${%%ENV} / name=${!cmd}, names and references each over {a,b,c}, literal over {x $ { }}, '
-                       'environment value / command output over {"", "${", "a", "}", "$", "{a", unset} (%s), expansion loop bound %d rounds; '
+            'bounds': ('The INI text is NOT symbolic: every query is an exhaustive case split over a batch (<= %d members) of a driver-enumerated finite family of concrete inputs; CBMC executes the real parser on each member '
+                       '(constant-folding symbolic execution; only the member selector is symbolic) and decides the memory-safety checks, the unwinding assertions (termination) and the functional assertions per member. '
+                       'Family sizes (members): %s. '
+                       'C17 raw: every string with %s; C17 @INCLUDE: prefix/name/suffix/include-text lists of harness/ini.c at richness %d, include file present or missing; '
+                       'C17 expansion templates: <= 3 lines of name=${ref} / name=lit${ref} / name=${%%ENV} / name=${!cmd}, names and references each over {a,b,c}, literal over {x $ { }}, '
+                       'environment value / command output over {"", "${", "a", "}", "$", "{a", unset} (three-line templates: %s), expansion loop bound %d rounds; '
                        'C20 documents: %s, line kinds {blank, #comment, [sec], [], k = v, k = [lit]${ref}, k = ${%%ENV}}, names/sections/values/references/layouts from the lists in harness/ini.c '
-                       '(1 line: full lists; 2 lines: %s lists; 3 lines: smallest lists, one layout), last line with and without newline, CR LF layouts, environment variable set/unset; '
+                       '(1 line: full lists; 2 lines: %s lists%s), last line with and without newline, CR LF layouts, environment variable set/unset; '
                        'C20 @INCLUDE: [line A] @INCLUDE i [line B] with a one-line include file, %d structural variants (padding, absolute/relative path, file present / other name / missing, trailing newlines); '
                        'separator character \'=\'; one include level')
-                      % (raw, incraw_rich(tier), 3, 'three-line templates: reference-only lines, or one ENV/cmd line' if not q else 'three-line templates: reference-only',
-                         EXPAND_BOUND - 1, '<= 2 lines' if q else '<= 3 lines', 'small' if q else 'medium', 3 if q else 8),
+                      % (BATCH, ', '.join('%s %d' % kv for kv in sorted(sz.items())), raw, incraw_rich(tier),
+                         'reference-only lines' if q else 'reference/literal lines, or one ENV/cmd line among reference lines', MAX_EXPANSIONS,
+                         '<= 2 lines' if q else '<= 3 lines', 'small' if q else 'medium', '' if q else '; 3 lines: smallest lists, one layout', 3 if q else 5),
             'prestate': 'input family: raw strings / grammar templates / structured documents printed by the harness; table argument NULL (a new table is created)',
             'stubs': ['in-memory file system for qfile_load / qfile_get_dir (main file "f", one include file "./i" or "/i")',
-                      'qgetenv: one variable with a per-member name/value or unset; qsyscmd: per-member output or failure',
+                      'qgetenv: one variable with a per-member name/value or unset; qsyscmd: per-member output or failure (both concrete per member: one symbolic byte in either = no verdict in 300 s)',
                       'qhashmurmur3_32 replaced by a byte sum (the list table only stores and compares it)',
                       'libc models in the harness: strstr, sprintf("%c%s"), snprintf/vsnprintf (%s only), byte-loop memcpy/memmove',
                       'allocator shim of harness/ini.c (exactly sized objects, never fails, ledger)',
